@@ -778,6 +778,87 @@ fn dup_generation_below_multi(rng: &mut Rng, img: &mut Vec<u8>, version: u32, no
     true
 }
 
+/// The mirror image: a *newer, multi-block* generation of a key in a free run BELOW its older single-block generation,
+/// which has other live records right behind it (a growing update that went into a hole further down, crash before
+/// the old extent's retirement).  The scan meets the newer generation first; at the older one it has to step over
+/// exactly the older one's extent - one block - or it jumps over its neighbours.
+fn dup_generation_newer_multi_below(rng: &mut Rng, img: &mut Vec<u8>, version: u32) -> bool {
+    let blocks = img.len() / BS;
+    let hdr = if version >= 2 { 30 } else { 22 };
+    let geometry = |img: &Vec<u8>, b: usize| -> Option<(usize, usize)> {
+        let o = b * BS;
+        if !(img[o] == 0xCD && img[o + 1] == 0xAB) { return None; }
+        let kl = u16::from_le_bytes([img[o + 4], img[o + 5]]) as usize;
+        if kl == 0 || 6 + kl + 24 > BS { return None; }
+        let vl = u64::from_le_bytes(img[o + 6 + kl..o + 14 + kl].try_into().unwrap()) as usize;
+        if vl == 0 || vl > (1 << 22) { return None; }
+        Some((kl, (hdr + kl + vl).div_ceil(BS)))
+    };
+    // single-block records with another record's head right behind them
+    let cands: Vec<(usize, usize)> = (16..blocks.saturating_sub(1)).filter_map(|b| geometry(img, b).filter(|(_, n)| *n == 1).map(|(kl, _)| (b, kl)))
+        .filter(|(b, _)| geometry(img, b + 1).is_some()).collect();
+    if cands.is_empty() { return false; }
+    let (h, kl) = *rng.pick(&cands);
+    let n = rng.range(2, 4) as usize;
+    let runs: Vec<usize> = (16..h.saturating_sub(n - 1)).filter(|u| *u + n <= h && (*u..*u + n).all(|b| all_zero(&img[b * BS..b * BS + BS]))).collect();
+    if runs.is_empty() { return false; }
+    let f = *rng.pick(&runs);
+    let head = img[h * BS..h * BS + BS].to_vec();
+    let o = f * BS;
+    let mut ext = rng.bytes(n * BS);
+    ext[..hdr + kl].copy_from_slice(&head[..hdr + kl]);
+    ext[2] = 0; ext[3] = 0;
+    // a value that ends in the extent's last block
+    let nvl = ((n - 1) * BS + rng.range(1, 2000) as usize - (hdr + kl).min((n - 1) * BS)) as u64;
+    let nvl = nvl.max(((n - 1) * BS + 1).saturating_sub(hdr + kl) as u64).min((n * BS - hdr - kl) as u64);
+    ext[6 + kl..14 + kl].copy_from_slice(&nvl.to_le_bytes());
+    let ts = u64::from_le_bytes(head[14 + kl..22 + kl].try_into().unwrap());
+    ext[14 + kl..22 + kl].copy_from_slice(&ts.saturating_add(rng.range(1, 9)).to_le_bytes());
+    if version >= 2 { ext[22 + kl..30 + kl].copy_from_slice(&0u64.to_le_bytes()); }
+    if (hdr + kl + nvl as usize).div_ceil(BS) != n { return false; }
+    if version >= 3 { fx::stamp_seq_token(&mut ext, f as u64, version); }
+    img[o..o + n * BS].copy_from_slice(&ext);
+    true
+}
+
+/// A device built with the real store so that a *newer, larger* generation of a key sits in a hole BELOW its older
+/// one-block generation, which has other live records right behind it: a three-block filler is written first, then the
+/// key and two neighbours; the filler is deleted (its hole is the best fit for a three-block value), the key is
+/// updated with such a value, and the "crash before the old extent's retirement" is made by putting the old block
+/// back from a copy taken before the update.
+fn stale_behind_winner_device(rng: &mut Rng, path: &str, version: u32, now: u64) -> Option<Vec<u8>> {
+    let blocks = 40u64;
+    new_device(path, blocks, version);
+    feoxdb::verif::clock::pin(now);
+    let open = || FeoxStore::builder().device_path(path.to_string()).file_size(blocks * BS as u64).hash_bits(6).enable_caching(false).build();
+    let r = (|| -> Option<Vec<u8>> {
+        let store = open().ok()?;
+        let tag = rng.below(1000);
+        let filler = format!("filler-{}", tag).into_bytes();
+        let key = format!("grow-{}", tag).into_bytes();
+        store.insert(&filler, &rng.bytes(2 * BS + 500)).ok()?;
+        store.flush().ok()?;
+        store.insert(&key, &rng.bytes(200)).ok()?;
+        store.flush().ok()?;
+        for i in 0..rng.range(2, 4) { store.insert(format!("next-{}-{}", tag, i).as_bytes(), &rng.bytes(100 + 50 * i as usize)).ok()?; store.flush().ok()?; }
+        let old_sector = store.verif_snapshot().iter().find(|r| r.key == key)?.sector as usize;
+        store.delete(&filler).ok()?;
+        store.flush().ok()?;
+        let before = std::fs::read(path).ok()?;
+        store.insert(&key, &rng.bytes(2 * BS + 300)).ok()?;
+        store.flush().ok()?;
+        let new_sector = store.verif_snapshot().iter().find(|r| r.key == key)?.sector as usize;
+        drop(store);
+        let mut img = std::fs::read(path).ok()?;
+        if !(new_sector < old_sector) || old_sector == 0 { return None; }
+        // the old one-block generation is back (its retirement never became durable)
+        img[old_sector * BS..(old_sector + 1) * BS].copy_from_slice(&before[old_sector * BS..(old_sector + 1) * BS]);
+        Some(img)
+    })();
+    feoxdb::verif::clock::unpin();
+    r
+}
+
 fn mutate_image(rng: &mut Rng, img: &mut Vec<u8>, version: u32) -> &'static str {
     let blocks = img.len() / BS;
     let data_blocks: Vec<usize> = (16..blocks).filter(|b| !all_zero(&img[b * BS..b * BS + 64])).collect();
@@ -1335,6 +1416,10 @@ fn sec_recover(s: &mut Sink, rng: &mut Rng, workloads: usize, mutations: usize) 
                     kinds.push("dup-generation");
                     *s.hist.entry("dup-generation-multiblock-loser-above".into()).or_insert(0) += 1;
                 }
+                if rng.chance(2, 3) && dup_generation_newer_multi_below(rng, &mut img, version) {
+                    kinds.push("dup-generation");
+                    *s.hist.entry("dup-generation-multiblock-winner-below".into()).or_insert(0) += 1;
+                }
                 if dup_generation(rng, &mut img, version, later) { kinds.push("dup-generation"); }
                 if rng.chance(1, 3) && dup_generation(rng, &mut img, version, later) { kinds.push("dup-generation"); }
             }
@@ -1444,20 +1529,25 @@ fn sec_migrate(s: &mut Sink, rng: &mut Rng, workloads: usize, oracle: &mut Vec<S
         let _ = run_workload(rng, &path, blocks, version, ttl, now, steps);
         let mut img = std::fs::read(&path).unwrap();
         let mut kind = "clean";
-        if rng.chance(1, 2) {
+        let mut directed = false;
+        if w % 3 == 2 && version != 3 {
+            if let Some(d) = stale_behind_winner_device(rng, &path, version, now) { img = d; kind = "stale-one-block-generation-behind-its-larger-successor"; directed = true; }
+        }
+        if !directed && rng.chance(1, 2) {
             kind = mutate_image(rng, &mut img, version);
         }
-        if rng.chance(1, 3) {
+        if !directed && rng.chance(1, 2) {
             // a source that a crash left with two generations of a key (between a replacement's commit and the old
             // extent's retirement), half of the time with equal timestamps: what the copy must hold is what a recovery
             // of the source exposes, not merely some generation of each key
+            if dup_generation_newer_multi_below(rng, &mut img, version) { kind = "dup-generation-multiblock-winner-below"; *s.hist.entry("migrate-source-with-multiblock-winner-below".into()).or_insert(0) += 1; }
             FORCE_TIE.store(rng.chance(1, 2), std::sync::atomic::Ordering::Relaxed);
-            if dup_generation(rng, &mut img, version, now) {
+            if kind != "dup-generation-multiblock-winner-below" && dup_generation(rng, &mut img, version, now) {
                 kind = if FORCE_TIE.load(std::sync::atomic::Ordering::Relaxed) { "dup-generation-tie" } else { "dup-generation" };
             }
             FORCE_TIE.store(false, std::sync::atomic::Ordering::Relaxed);
         }
-        if rng.chance(1, 3) {
+        if !directed && rng.chance(1, 3) {
             // a crashed source: an ACTIVE intent journal (extents in allocation order, i.e. not sorted)
             // over some of the record extents and free blocks
             let scratch = format!("{}/mig{}_probe.feox", s.dir, w);
@@ -1492,7 +1582,7 @@ fn sec_migrate(s: &mut Sink, rng: &mut Rng, workloads: usize, oracle: &mut Vec<S
                 }
             }
         }
-        if rng.chance(1, 4) {
+        if !directed && rng.chance(1, 4) {
             // an ambiguous legacy marker: tag only, everything else zero, in some data block
             let b = rng.range(16, blocks - 1) as usize;
             for x in &mut img[b * BS..(b + 1) * BS] { *x = 0; }
